@@ -22,8 +22,7 @@ def scenarios(quick):
            ([] if quick else [
                (T.chain2(maxseq=2), 'Spec', dict(pq=6, rq=2, lq=3), {}),
                (T.hidden(maxseq=1), 'SpecZL', {}, {}),
-               (T.chain3(maxseq=2, conn_ticks=2), 'SpecPrompt', {}, dict(max_faults=1, fault_kinds=['kill'], victims=['S', 'A', 'K'])),
-               (T.tee(maxseq=2, conn_ticks=2), 'SpecPrompt', {}, dict(kill, victims=['S', 'A']))]),
+               (T.chain3(maxseq=1, conn_ticks=2), 'SpecPrompt', {}, dict(max_faults=1, fault_kinds=['kill'], victims=['S', 'A', 'K']))]),
         mut=[(T.chain2(maxseq=2, conn_ticks=2), 'SpecPrompt', ['no_old_recv'], {}, dict(max_faults=1, fault_kinds=['kill'], victims=['S']))] +
             ([] if quick else [
                 (T.chain3(maxseq=2, conn_ticks=2), 'SpecPrompt', ['no_old_send'], {}, dict(max_faults=1, fault_kinds=['kill'], victims=['A']))]),
@@ -190,7 +189,7 @@ def run(ctx):
     eng.cover(topos.chain2(maxseq=1), 'SpecPrompt')
     if not ctx.quick:
         eng.cover(topos.chain2(maxseq=1), 'Spec', bounds=dict(pq=5, rq=2, lq=2))
-        eng.cover(topos.chain2(maxseq=1, conn_ticks=2), 'SpecPrompt', max_faults=1, fault_kinds=['kill'], victims=['S', 'K'], max_paths=4000)
+        eng.cover(topos.chain2(maxseq=1, conn_ticks=2), 'SpecPrompt', max_faults=1, fault_kinds=['kill'], victims=['S', 'K'], max_paths=1500)
     for topo, n, steps, pt, pd, faults in sc['rand']:
         eng.random_runs(topo, n, steps, p_timeout=pt, p_drop=pd,
                         faults=late_join if faults == 'late' else kill_faults if faults else None, tag='rand',
